@@ -11,4 +11,6 @@ func init() {
 	mut("C17", "export-marks-exported", "har/har.go", "\t\tcurr = curr.next\n\t\tes = append(es, curr)\n\t\tif curr == l.tail {\n", "\t\tcurr = curr.next\n\t\tes = append(es, curr)\n\t\tif curr.Response != nil {\n\t\t\tdelete(l.entries, curr.ID)\n\t\t}\n\t\tif curr == l.tail {\n", "C17.R5", "writers of entries")
 	mut("C17", "ring-not-closed", "har/har.go", "\t\tl.tail = prev\n\t\tl.tail.next = first\n", "\t\tl.tail = prev\n", "C17.R4", "closed into a ring")
 	mut("C17", "ring-closed-onto-last-walked", "har/har.go", "\t\tl.tail.next = first\n", "\t\tl.tail.next = curr\n", "C17.R4", "first pending")
+	mut("C17", "blank-return-means-false", "har/har_handlers.go", "\tif params[name] == nil {\n\t\treturn false, nil\n\t}", "\tif params.Get(name) == \"\" {\n\t\treturn false, nil\n\t}", "C17.R4", "only an absent parameter means false")
+	twin("C17", "absent-by-length", "har/har_handlers.go", "\tif params[name] == nil {\n\t\treturn false, nil\n\t}", "\tif len(params[name]) == 0 {\n\t\treturn false, nil\n\t}")
 }
